@@ -9,7 +9,7 @@ use std::collections::HashMap;
 /// are present in the file, as different expansions introduced new chunk types.
 ///
 /// Detection follows this hierarchy (most recent features first):
-/// - `MTXP` (texture parameters) → Mists of Pandaria 5.x
+/// - `MTXP` (texture parameters) or blend mesh chunks (`MBMH`/`MBBB`/`MBNV`/`MBMI`) → Mists of Pandaria 5.x
 /// - `MAMP` (texture amplitude) → Cataclysm 4.x
 /// - `MH2O` (height-based water) → Wrath of the Lich King 3.x
 /// - `MFBO` (flight bounds) → The Burning Crusade 2.x
@@ -59,7 +59,7 @@ impl AdtVersion {
     /// introduced in each expansion, starting with the most recent.
     ///
     /// Detection algorithm:
-    /// 1. `MTXP` present → Mists of Pandaria (5.x)
+    /// 1. `MTXP` or a blend mesh chunk (`MBMH`/`MBBB`/`MBNV`/`MBMI`) present → Mists of Pandaria (5.x)
     /// 2. `MAMP` present OR (has `MCNK` but no `MCIN`) → Cataclysm (4.x)
     ///    - Split root files have `MCNK` but `MCIN` moved to _tex0.adt
     /// 3. `MH2O` present → Wrath of the Lich King (3.x)
@@ -97,7 +97,13 @@ impl AdtVersion {
         let has_mcin = chunks.contains_key(&ChunkId::MCIN);
         let is_split_root = has_mcnk && !has_mcin;
 
-        if chunks.contains_key(&ChunkId::MTXP) {
+        // MoP introduced MTXP and the blend mesh chunks (MBMH/MBBB/MBNV/MBMI); a tile
+        // may carry blend meshes without MTXP
+        let has_blend_mesh = [ChunkId::MBMH, ChunkId::MBBB, ChunkId::MBNV, ChunkId::MBMI]
+            .iter()
+            .any(|id| chunks.contains_key(id));
+
+        if chunks.contains_key(&ChunkId::MTXP) || has_blend_mesh {
             Self::MoP
         } else if chunks.contains_key(&ChunkId::MAMP) || is_split_root {
             // Cataclysm: Either has MAMP or is split root file
